@@ -295,4 +295,23 @@ example :
     (classify (lexOf (upd [110, 111, 119] .nil).render) 80).idem = false := by
   decide +kernel
 
+open CqlVerif.Ast in
+/-- **delete_where_grammar_sound** — for every `DELETE FROM [ks.]table WHERE rel AND rel … <tail>` (relations as in
+`update_where_grammar_sound`), scanned from the start of the input, with any fuel: if the verdict is "idempotent" no
+term of the WHERE clause contains a call of `now()` / `uuid()` at any depth. -/
+theorem delete_where_grammar_sound (d : DeleteW) (hwf : ∀ r ∈ d.rels, r.wf) (L : Lexer) (fuel : Nat)
+    (hA : At L 0 d.render) (hi : (classify L fuel).idem = true) : relsNonIdem d.rels = false :=
+  deleteW_sound d hwf L fuel hA hi
+
+open CqlVerif.Ast in
+/-- non-vacuity: `DELETE FROM ks.t WHERE k >= [1, ?] <end>` meets the hypotheses; with `uuid()` in the list it is "not idempotent" -/
+example :
+    let del (x : Term) : DeleteW :=
+      { ks := some { text := [107, 115] }, table := { text := [116] },
+        rels := [.cmp { text := [107] } tkGtEqual (.list (.cons .int (.cons x .nil)))], tail := [k tkEOF] }
+    (classify (lexOf (del .bindQ).render) 60).idem = true ∧
+    relsNonIdem (del (.call none { text := [117, 117, 105, 100] } .nil)).rels = true ∧
+    (classify (lexOf (del (.call none { text := [117, 117, 105, 100] } .nil)).render) 60).idem = false := by
+  decide +kernel
+
 end CqlVerif.C06
